@@ -443,7 +443,7 @@ class RiscvParser(Parser):
                         line_parsed.get("value"), line_number, line, base=10
                     )
                     self.variables.update(
-                        {line_parsed.get("name"): (address_counter, 4 * num_words)}
+                        {line_parsed.get("name"): (address_counter, 4)}
                     )
                     address_counter += 4 * num_words
 
